@@ -39,10 +39,10 @@ const RULE_SEQ: &str = "histories are generated from splitmix(VERIF_SEED, proper
 pub const SPECS: &[PropSpec] = &[
     PropSpec { id: "C01", engine: Engine::Seq, profiles: &[(Profile::Breach, 70), (Profile::Chain, 15), (Profile::Resubmit, 15)], level: "exploration", quick_secs: 60, quick_runs: 30_000, thorough_secs: 900, rule: RULE_SEQ },
     PropSpec { id: "C02", engine: Engine::Seq, profiles: &[(Profile::Breach, 50), (Profile::Chain, 35), (Profile::Expiry, 15)], level: "exploration", quick_secs: 60, quick_runs: 30_000, thorough_secs: 900, rule: RULE_SEQ },
-    PropSpec { id: "C03", engine: Engine::Crash, profiles: &[(Profile::Breach, 60), (Profile::Chain, 25), (Profile::Expiry, 15)], level: "fault_enumeration", quick_secs: 75, quick_runs: 400, thorough_secs: 1200, rule: RULE_CRASH },
-    PropSpec { id: "C04", engine: Engine::Seq, profiles: &[(Profile::Chain, 90), (Profile::Breach, 10)], level: "exploration", quick_secs: 75, quick_runs: 20_000, thorough_secs: 1200, rule: RULE_SEQ },
+    PropSpec { id: "C03", engine: Engine::Crash, profiles: &[(Profile::Breach, 50), (Profile::Chain, 20), (Profile::Expiry, 15), (Profile::Completion, 15)], level: "fault_enumeration", quick_secs: 75, quick_runs: 400, thorough_secs: 1200, rule: RULE_CRASH },
+    PropSpec { id: "C04", engine: Engine::Seq, profiles: &[(Profile::Chain, 75), (Profile::Completion, 15), (Profile::Breach, 10)], level: "exploration", quick_secs: 75, quick_runs: 20_000, thorough_secs: 1200, rule: RULE_SEQ },
     PropSpec { id: "C06", engine: Engine::Seq, profiles: &[(Profile::Auth, 85), (Profile::Expiry, 15)], level: "exploration", quick_secs: 60, quick_runs: 30_000, thorough_secs: 900, rule: RULE_SEQ },
-    PropSpec { id: "C07", engine: Engine::Seq, profiles: &[(Profile::Breach, 50), (Profile::Chain, 20), (Profile::Expiry, 15), (Profile::Auth, 15)], level: "exploration", quick_secs: 60, quick_runs: 30_000, thorough_secs: 900, rule: RULE_SEQ },
+    PropSpec { id: "C07", engine: Engine::Seq, profiles: &[(Profile::Breach, 45), (Profile::Chain, 15), (Profile::Expiry, 15), (Profile::Auth, 15), (Profile::Completion, 10)], level: "exploration", quick_secs: 60, quick_runs: 30_000, thorough_secs: 900, rule: RULE_SEQ },
     PropSpec { id: "C08", engine: Engine::Seq, profiles: &[(Profile::Breach, 60), (Profile::Expiry, 20), (Profile::Chain, 20)], level: "exploration", quick_secs: 60, quick_runs: 30_000, thorough_secs: 900, rule: RULE_SEQ },
     PropSpec { id: "C09", engine: Engine::Seq, profiles: &[(Profile::Expiry, 85), (Profile::Breach, 15)], level: "exploration", quick_secs: 60, quick_runs: 30_000, thorough_secs: 900, rule: RULE_SEQ },
     PropSpec { id: "C10", engine: Engine::Conc, profiles: &[], level: "exploration", quick_secs: 75, quick_runs: 100_000, thorough_secs: 1200, rule: RULE_CONC },
@@ -273,9 +273,17 @@ pub fn cmd_worker(args: &[String]) -> i32 {
             if thorough || n - nb <= 12 {
                 points.extend(nb + 1..=n);
             } else {
+                // half of the sample uniformly, half among the last 24 points (the end of a history is where trackers
+                // complete, users are purged and late requests arrive)
                 let mut set = BTreeSet::new();
-                while set.len() < 12 {
+                while set.len() < 6 {
                     set.insert(r.range(nb + 1, n));
+                }
+                let tail_from = (n.saturating_sub(24)).max(nb + 1);
+                let mut guard = 0;
+                while set.len() < 12 && guard < 200 {
+                    set.insert(r.range(tail_from, n));
+                    guard += 1;
                 }
                 points.extend(set);
             }
